@@ -187,7 +187,7 @@ impl<T: HashAlgorithm> World<T> {
 
     /// Prove one member of every group plus the probes through the session, verify against the
     /// session's previous root, confirm against what the session reads.
-    fn proofs_ok(&self, s: &Session<T>) -> (bool, u64, String) {
+    pub fn proofs_ok(&self, s: &Session<T>) -> (bool, u64, String) {
         let prev = s.prev_root().into_inner();
         let mut n = 0u64;
         let mut keys: Vec<Key> = Vec::new();
@@ -237,10 +237,10 @@ impl<T: HashAlgorithm> World<T> {
     }
 }
 
-fn jstr(v: &J, k: &str) -> String {
+pub fn jstr(v: &J, k: &str) -> String {
     v.get(k).and_then(|x| x.as_str()).unwrap_or("").to_string()
 }
-fn ju(v: &J, k: &str) -> u64 {
+pub fn ju(v: &J, k: &str) -> u64 {
     v.get(k).and_then(|x| x.as_u64()).unwrap_or(0)
 }
 
@@ -438,7 +438,7 @@ fn batch_for<T: HashAlgorithm>(
     Ok((actuals.into_iter().collect(), reads, written))
 }
 
-fn exec_step<T: HashAlgorithm>(w: &mut World<T>, step: &J) -> anyhow::Result<J> {
+pub fn exec_step<T: HashAlgorithm>(w: &mut World<T>, step: &J) -> anyhow::Result<J> {
     let a = jstr(step, "a");
     let mut ev = step.as_object().cloned().unwrap_or_default();
     ev.remove("res");
